@@ -226,6 +226,17 @@ pub fn mixer_code(other: Option<Address>) -> Vec<u8> {
     )])
 }
 
+/// The "mover": reads a pointer slot, writes a slot whose LOCATION depends on the pointer value and
+/// bumps the pointer, so that re-executions drop one write location and add another.
+pub fn mover_code() -> Vec<u8> {
+    let p = Expr::Mod(Box::new(Expr::Cd(0)), Box::new(c(2)));
+    let x = Expr::Sload(Box::new(p.clone()));
+    asm::assemble(&[
+        Stmt::Sstore(add(c(16), Expr::Mod(Box::new(x.clone()), Box::new(c(3)))), add(x.clone(), Expr::Cd(1))),
+        Stmt::Sstore(p, add(x, c(1))),
+    ])
+}
+
 /// Family 1: transfers and data-dependent storage on few accounts (conflict heavy).
 pub fn gen_mixed(rng: &mut Rng, spec: SpecId, n_txs: usize) -> Block {
     let n_eoas = 2 + rng.below(4);
@@ -233,6 +244,7 @@ pub fn gen_mixed(rng: &mut Rng, spec: SpecId, n_txs: usize) -> Block {
     let cb = b.setup_coinbase(rng);
     b.db.insert_contract(contract(1), mixer_code(None), U256::ZERO, &[(0, 2), (1, 3)]);
     b.db.insert_contract(contract(0), mixer_code(Some(contract(1))), U256::from(9u64), &[(0, 1), (2, 4)]);
+    b.db.insert_contract(contract(3), mover_code(), U256::ZERO, &[(0, 1), (1, 2)]);
     // reads the beneficiary balance and stores it
     b.db.insert_contract(
         contract(2),
@@ -252,10 +264,14 @@ pub fn gen_mixed(rng: &mut Rng, spec: SpecId, n_txs: usize) -> Block {
                 let v = [0u128, 1, 1000, ETHER / 3][rng.below(4)];
                 b.transfer(rng, from, to, v);
             }
-            3..=6 => {
+            3..=4 => {
                 let words = [rng.below(6) as u64, rng.below(5) as u64];
                 let to = contract(rng.below(2));
                 b.call(rng, from, to, &words, "mixer");
+            }
+            5..=6 => {
+                let words = [rng.below(2) as u64, rng.below(5) as u64];
+                b.call(rng, from, contract(3), &words, "mover");
             }
             7 => {
                 b.call(rng, from, contract(2), &[], "read-coinbase-balance");
@@ -398,9 +414,10 @@ pub fn gen_code(rng: &mut Rng, spec: SpecId, n_txs: usize) -> Block {
     let mut dep_nonce = 1u64;
     let mut deployed: Vec<Address> = vec![dep.create(1)];
     let mut auth_nonce_guess = *b.nonces.get(&authority).unwrap();
+    let mut own_next = auth_nonce_guess;
     for _ in 0..n_txs {
         let from = eoa(1 + rng.below(n_eoas - 1));
-        match rng.below(10) {
+        match rng.below(12) {
             0..=2 if prague => {
                 // sponsored authorisation tuple(s)
                 let target = pick(rng, &[x, y, Address::ZERO, x]);
@@ -431,14 +448,22 @@ pub fn gen_code(rng: &mut Rng, spec: SpecId, n_txs: usize) -> Block {
             5 => {
                 b.call(rng, from, contract(22), &[], "inspect-authority");
             }
-            6 => {
-                // the authority sends its own transaction; its nonce may have been consumed by
-                // authorisations, so this is valid only if our guess is right
-                let nonce = auth_nonce_guess;
+            6 | 10 | 11 => {
+                // the authority sends its own transaction. Mostly with the nonce that accounts for
+                // the authorisations consumed so far (valid); sometimes with the nonce it would
+                // have if only its own transactions counted (stale once a sponsor's authorisation
+                // bumped it: in-order NonceTooLow).
+                let stale = rng.chance(1, 3);
+                let nonce = if stale { own_next } else { auth_nonce_guess };
                 let i = b.transfer(rng, authority, from, 1);
                 b.txs[i].nonce = nonce;
-                b.nonces.insert(authority, nonce + 1);
-                auth_nonce_guess = nonce + 1;
+                if stale && nonce != auth_nonce_guess {
+                    b.desc[i].push_str(" [authority nonce ignores sponsored authorisations]");
+                } else {
+                    auth_nonce_guess = nonce + 1;
+                }
+                own_next = nonce + 1;
+                b.nonces.insert(authority, auth_nonce_guess);
             }
             7 => {
                 b.call(rng, from, dep, &[], "deploy");
@@ -808,13 +833,18 @@ pub fn gen_conf(rng: &mut Rng, n_txs: usize) -> Block {
     b.db.insert_eoa(coinbase(), U256::from(1u64), 0);
     b.db.insert_contract(contract(1), mixer_code(None), U256::ZERO, &[(0, 2), (1, 3)]);
     b.db.insert_contract(contract(0), mixer_code(Some(contract(1))), U256::from(9u64), &[(0, 1), (2, 4)]);
+    b.db.insert_contract(contract(3), mover_code(), U256::ZERO, &[(0, 1), (1, 2)]);
     for _ in 0..n_txs {
         let from = eoa(rng.below(n_eoas));
         let i = match rng.below(10) {
-            0..=3 => {
+            0..=2 => {
                 let to = eoa(rng.below(n_eoas));
                 let v = [1u128, 1000, ETHER / 5][rng.below(3)];
                 b.transfer(rng, from, to, v)
+            }
+            3..=5 => {
+                let words = [rng.below(2) as u64, rng.below(5) as u64];
+                b.call(rng, from, contract(3), &words, "mover")
             }
             _ => {
                 let words = [rng.below(6) as u64, rng.below(5) as u64];
